@@ -28,15 +28,19 @@ Canon == /\ st' = F("none") /\ dl' = F(0) /\ per' = F(0) /\ cnt' = F(0)
 EvReset == IsEv("Reset") /\ Canon
 EvBegin == IsEv("Begin") /\ Canon
 
-EvSched == /\ IsEv("Sched") /\ st[Ev.k] = "none"
+\* the call is announced before it is made (its handler may start before the caller logs the result)
+EvSchedCall == /\ IsEv("SchedCall") /\ st[Ev.k] = "none"
+               /\ st' = [st EXCEPT ![Ev.k] = "calling"] /\ dl' = [dl EXCEPT ![Ev.k] = Ev.t + Ev.d]
+               /\ per' = [per EXCEPT ![Ev.k] = IF Ev.per THEN Ev.d ELSE 0]
+               /\ UNCHANGED <<cnt, lifeCalled, closed, mustRun, dev>>
+EvSched == /\ IsEv("Sched") /\ st[Ev.k] = "calling"
            /\ IF Ev.ok
-              THEN /\ st' = [st EXCEPT ![Ev.k] = "live"] /\ dl' = [dl EXCEPT ![Ev.k] = Ev.t + Ev.d]
-                   /\ per' = [per EXCEPT ![Ev.k] = IF Ev.per THEN Ev.d ELSE 0]
-              ELSE /\ lifeCalled                   \* refused only because draining / stopped
-                   /\ st' = [st EXCEPT ![Ev.k] = "refused"] /\ UNCHANGED <<dl, per>>
-           /\ UNCHANGED <<cnt, lifeCalled, closed, mustRun, dev>>
+              THEN st' = [st EXCEPT ![Ev.k] = "live"]
+              ELSE /\ lifeCalled /\ cnt[Ev.k] = 0       \* refused only because draining / stopped; a refused timer never ran
+                   /\ st' = [st EXCEPT ![Ev.k] = "refused"]
+           /\ UNCHANGED <<dl, per, cnt, lifeCalled, closed, mustRun, dev>>
 
-FireOk == /\ st[Ev.k] \in {"live", "cancelled"}
+FireOk == /\ st[Ev.k] \in {"calling", "live", "cancelled"}
           /\ Ev.n = cnt[Ev.k] + 1
           /\ (per[Ev.k] = 0) => Ev.n = 1                                   \* one-shot: at most once
           /\ Ev.t >= dl[Ev.k] + (Ev.n - 1) * per[Ev.k]                     \* never early
@@ -68,15 +72,17 @@ EvLifeRet == /\ IsEv("LifeRet")
              /\ closed' = (closed \/ Ev.closed)
              /\ UNCHANGED <<st, dl, per, cnt, lifeCalled, mustRun, dev>>
 \* scheduling on a stopped service is refused rather than lost
+EvLateCall == /\ IsEv("LateCall") /\ st' = [st EXCEPT ![Ev.k] = "calling"] /\ dl' = [dl EXCEPT ![Ev.k] = Ev.t]
+              /\ UNCHANGED <<per, cnt, lifeCalled, closed, mustRun, dev>>
 EvLate == /\ IsEv("Late")
           /\ closed => ~Ev.ok
-          /\ IF Ev.ok THEN st' = [st EXCEPT ![Ev.k] = "live"] /\ dl' = [dl EXCEPT ![Ev.k] = Ev.t] ELSE UNCHANGED <<st, dl>>
-          /\ UNCHANGED <<per, cnt, lifeCalled, closed, mustRun, dev>>
+          /\ st' = [st EXCEPT ![Ev.k] = IF Ev.ok THEN "live" ELSE "refused"]
+          /\ UNCHANGED <<dl, per, cnt, lifeCalled, closed, mustRun, dev>>
 EvEnd == /\ IsEv("End")
          /\ \A k \in mustRun : cnt[k] = 1          \* "has run or will run exactly once"
          /\ UNCHANGED <<st, dl, per, cnt, lifeCalled, closed, mustRun, dev>>
 
-Next == EvReset \/ EvBegin \/ EvSched \/ EvFire \/ DevFirePeriodicAfterCancel \/ EvCancelRet \/ EvLifeCall \/ EvLifeRet
+Next == EvReset \/ EvBegin \/ EvSchedCall \/ EvSched \/ EvLateCall \/ EvFire \/ DevFirePeriodicAfterCancel \/ EvCancelRet \/ EvLifeCall \/ EvLifeRet
         \/ EvLate \/ EvEnd
 Spec == Init /\ [][Next]_vars
 ===============================================================================
